@@ -128,8 +128,10 @@ def dynamic_footprint(chk):
     import uwgutil as U2
     bad, nreads, runs = [], 0, 0
     fields = ('infra', 'wind', 'uDir', 'hum', 'pres', 'temp', 'rHum', 'prec', 'dif', 'dir')
-    for (mo, dy, dt, nsoil3) in [(1, 1, 300, True), (6, 30, 150, True), (3, 1, 300, False)]:
-        m = U2.new_model(outdir=chk.work(), outname='fp.epw', month=mo, day=dy, nday=1, dtsim=dt)
+    for (mo, dy, dt, nsoil3, extra) in [(1, 1, 300, True, {}), (6, 30, 150, True, {}), (3, 1, 300, False, {}),
+                                        # pavement below the deepest ground depth (refused on the pinned tree)
+                                        (2, 2, 300, True, {'droad': 4.5})]:
+        m = U2.new_model(outdir=chk.work(), outname='fp.epw', month=mo, day=dy, nday=1, dtsim=dt, **extra)
         with core.quiet():
             m.generate()
         if not nsoil3:
@@ -205,6 +207,203 @@ def toy_cases(chk, n, bad_dt=False):
         ans = ('ok ' if err is None else 'err %s ' % err) + '[' + ';'.join(map(str, recs)) + ']'
         cases.append((line, ans))
     return [c for c in cases if c[0]]
+
+
+def cmp_runs(chk, kind, case, a, b, first, upto, bad_box):
+    """Records (8 fields) and written cells 6,7,8,21 of two finished runs must be bit-identical for hours < upto."""
+    (m1, r1, w1), (m2, r2, w2) = a, b
+    d = first_diff(r1, r2, upto)
+    dw = None
+    for n in range(upto):
+        x, y = w1[first + n], w2[first + n]
+        if [x[c] for c in (6, 7, 8, 21)] != [y[c] for c in (6, 7, 8, 21)]:
+            dw = n
+            break
+    if d is None and dw is None:
+        return True
+    n = d if d is not None else dw
+    bad_box[0] += 1
+    if bad_box[0] <= 3:
+        chk.violation('impl-violation', 'causality: paired runs differ at hour %d (%s)' % (n, kind), case=case,
+                      observed='hour %d: records %s vs %s; written %s vs %s' % (
+                          n, r1[n][:3], r2[n][:3], [w1[first + n][c] for c in (6, 7, 8, 21)],
+                          [w2[first + n][c] for c in (6, 7, 8, 21)]),
+                      expected='records and written rows for hours <= %d bit-identical' % (upto - 1))
+    return False
+
+
+def try_run(epw, work, name, **attrs):
+    """run_model, or the exception the model raised (its own fail-stop / a refused configuration)."""
+    try:
+        return run_model(epw, work, name, **attrs), None
+    except Exception as e:  # noqa: BLE001
+        return None, '%s: %s' % (type(e).__name__, str(e)[:100])
+
+
+def variant_pairs(chk, work, base):
+    """Paired real runs on legal but never-varied rural files (s1_util). What is demanded follows the property:
+    header cells the model does not document as inputs are 'unmodelled columns'; an isolated outlier or an EPW
+    missing marker at or before the cut hour is ordinary rural data up to h; a configuration that is refused
+    (pavement below the deepest ground-temperature depth) produces no urban value, but if it is accepted its values
+    must obey the same causality; an 8784-row file is read by row offset like any other."""
+    import s1_util as S
+    rng = chk.rng
+    thorough = chk.tier == 'thorough'
+    bad = [0]
+    total, branches = 0, {}
+
+    def count(kind):
+        branches[kind] = branches.get(kind, 0) + 1
+
+    def window(month, day, nday):
+        return 8 + 24 * S.doy0(month, day), 24 * nday
+
+    # ---- (1) same data, other header cells: every hour of the window bit-identical -----------------
+    for rep in range(1 if not thorough else 4):
+        month, day = rng.choice([(3, 1), (6, 29), (9, 14), (11, 2), (3, 30), (7, 15)])
+        attrs = dict(month=month, day=day, nday=1, dtsim=300)
+        first, nh = window(month, day, 1)
+        ref, err = try_run(S.save_epw(base, os.path.join(work, 'hv_ref.epw')), work, 'hva.epw', **attrs)
+        if ref is None:
+            chk.notes.append('header-variant reference run %s skipped: %s' % (attrs, err))
+            continue
+        combos = ['actual-year-header',
+                  '+'.join([rng.choice(S.GROUPS['weekday']), rng.choice(S.GROUPS['dst']), 'holidays-listed',
+                            'ground-props-filled', 'comments']),
+                  '+'.join(['leapflag-Yes', 'no-design-conditions', 'location-text', 'ground-props-partly'])]
+        if thorough:
+            combos += list(S.HEADER_VARIANTS)
+        for name in combos:
+            rows = S.apply_variant(base, name)
+            if 'location-text' in name:
+                rows[0][9] = base[0][9]          # (elevation is not varied here: keep to cells no routine reads)
+            got, err = try_run(S.save_epw(rows, os.path.join(work, 'hv_var.epw')), work, 'hvb.epw', **attrs)
+            case = {'kind': 'header-variant', 'epw_variant': name, 'params': attrs,
+                    'header cells changed (line, cell, old, new)': S.header_cells_changed(base, rows)[:12]}
+            total += 1
+            count('header-variant')
+            if got is None:
+                bad[0] += 1
+                chk.violation('impl-violation', 'a legal rural file (other header cells, same data) is not simulated',
+                              case=case, observed=err, expected='the same urban hours as with the shipped header')
+                continue
+            cmp_runs(chk, 'header-variant: same rural data, other header cells', case, ref, got, first, nh, bad)
+
+    # ---- (2) isolated outliers / missing markers at and before the cut hour, in BOTH files -------------
+    for rep in range(1 if not thorough else 5):
+        month, day = rng.choice([(1, 1), (4, 11), (8, 20), (10, 3)])
+        first, nh = window(month, day, 1)
+        h = rng.randint(8, 17)
+        rows = S.copy_rows(base)
+        marks = {}
+        marks['dry bulb at h'] = S.put_outlier(rows, first + h, 6, rng.choice([1, -1]))
+        marks['dry bulb at the last hour of day 1'] = S.put_outlier(rows, first + 23, 6, rng.choice([1, -1]))
+        marks['humidity at h-3'] = S.put_outlier(rows, first + h - 3, 8)
+        marks['wind at h-1'] = S.put_outlier(rows, first + h - 1, 21)
+        marks['direct normal at h-2'] = S.put_outlier(rows, first + h - 2, 14)
+        marks['pressure at h-5'] = S.put_outlier(rows, first + h - 5, 9)
+        for c in (7, 13, 16, 22):                       # missing markers in unmodelled cells of the cut row
+            rows[first + h][c] = S.MISSING[c]
+        src = S.save_epw(rows, os.path.join(work, 'out_src.epw'))
+        pert = S.copy_rows(rows)
+        for i in range(first + h + 1, first + nh + 24):
+            for c in MODELLED:
+                pert[i][c] = perturb_value(rng, c, pert[i][c])
+        attrs = dict(month=month, day=day, nday=1, dtsim=300)
+        a, e1 = try_run(src, work, 'oa.epw', **attrs)
+        b, e2 = try_run(S.save_epw(pert, os.path.join(work, 'out_pert.epw')), work, 'ob.epw', **attrs)
+        c2, e3 = try_run(src, work, 'oc.epw', **dict(attrs, nday=2))
+        case = {'kind': 'after-cut-with-isolated-outliers', 'params': attrs, 'cut_hour': h, 'first_row': first,
+                'outliers (both files)': marks}
+        if a is None:
+            chk.notes.append('outlier pair %s skipped: %s' % (attrs, e1))
+            count('skipped(model raised)')
+            continue
+        if b is not None:
+            total += 1
+            count('after-cut-with-isolated-outliers')
+            cmp_runs(chk, 'after-cut, isolated outliers at and before the cut hour in both files', case, a, b,
+                     first, h + 1, bad)
+        if c2 is not None:
+            total += 1
+            count('longer-window-with-outlier-in-last-hour')
+            cmp_runs(chk, 'longer window from the same start, isolated dry-bulb outlier in the last hour of the '
+                     'shorter window', dict(case, kind='longer-window-with-outlier-in-last-hour',
+                                            other_params=dict(attrs, nday=2)), a, c2, first, 24, bad)
+
+    # ---- (3) pavement below the deepest ground-temperature depth (>= 3 depths in the file) ----------
+    deep = [('droad=4.5 on the shipped depths 0.5/2/4 m', None, 4.5),
+            ('three depths 0.1/0.2/0.3 m, default droad', ['0.1', '0.2', '0.3'], None)]
+    if thorough:
+        deep += [('droad=12 on four depths', ['0.5', '1', '2', '8'], 12.0), ('droad=4.01', None, 4.01)]
+    for (label, depths, droad) in deep:
+        month, day = rng.choice([(1, 1), (5, 5), (9, 30)])
+        first, nh = window(month, day, 1)
+        rows = S.copy_rows(base)
+        if depths:
+            rows[3] = S.ground_line(depths, temps=lambda i, m: '%.2f' % (25.5 + i + 0.2 * m))
+        src = S.save_epw(rows, os.path.join(work, 'deep_src.epw'))
+        h = rng.randint(0, 12)
+        pert = S.copy_rows(rows)
+        for i in range(first + h + 1, first + nh):
+            pert[i][6] = perturb_value(rng, 6, pert[i][6])
+        attrs = dict(month=month, day=day, nday=1, dtsim=300)
+        if droad:
+            attrs['droad'] = droad
+        a, e1 = try_run(src, work, 'da.epw', **attrs)
+        b, e2 = try_run(S.save_epw(pert, os.path.join(work, 'deep_pert.epw')), work, 'db.epw', **attrs)
+        c2, e3 = try_run(src, work, 'dc.epw', **dict(attrs, nday=2))
+        total += 1
+        case = {'kind': 'pavement-below-deepest-ground-depth', 'what': label, 'params': attrs, 'cut_hour': h,
+                'GROUND TEMPERATURES': rows[3][:20]}
+        if a is None and b is None and c2 is None:
+            count('deep-pavement: refused (no urban value exists)')
+            continue
+        count('deep-pavement: accepted')
+        if a is not None and b is not None:
+            cmp_runs(chk, 'pavement below the deepest of >= 3 ground depths, later dry-bulb rows changed', case,
+                     a, b, first, h + 1, bad)
+        if a is not None and c2 is not None:
+            cmp_runs(chk, 'pavement below the deepest of >= 3 ground depths, one more day simulated',
+                     dict(case, other_params=dict(attrs, nday=2)), a, c2, first, 24, bad)
+        if (a is None) != (b is None):
+            chk.notes.append('deep pavement %s: one run refused, the other not: %s / %s' % (label, e1, e2))
+
+    # ---- (4) 8784-row leap file: rows after the cut AND every row outside the window changed ---------
+    for rep in range(1 if not thorough else 3):
+        month, day = rng.choice([(3, 1), (2, 28), (7, 7)])
+        leap = S.leap_rows(base)
+        first, nh = window(month, day, 1)                 # the model reads by row offset
+        h = rng.randint(0, nh - 2)
+        pert = S.copy_rows(leap)
+        for i in list(range(8, first)) + list(range(first + h + 1, len(pert))):
+            if i > first or i % 5 == 0 or first - i < 30:
+                for c in MODELLED:
+                    pert[i][c] = perturb_value(rng, c, pert[i][c])
+        attrs = dict(month=month, day=day, nday=1, dtsim=300)
+        a, e1 = try_run(S.save_epw(leap, os.path.join(work, 'leap_src.epw')), work, 'la.epw', **attrs)
+        b, e2 = try_run(S.save_epw(pert, os.path.join(work, 'leap_pert.epw')), work, 'lb.epw', **attrs)
+        if a is None or b is None:
+            chk.notes.append('leap-file pair %s skipped: %s %s' % (attrs, e1, e2))
+            count('skipped(model raised)')
+            continue
+        total += 1
+        count('leap-file: after-cut + outside-window')
+        cmp_runs(chk, '8784-row file: rows after the cut and all rows outside the window (by offset) changed',
+                 {'kind': 'leap-file', 'params': attrs, 'cut_hour': h, 'first_row': first}, a, b, first, h + 1, bad)
+
+    chk.direct('paired-runs(legal rural-file variants)', total, total,
+               'pairs of real generate;simulate;write_epw runs (1 day, dt 300): (1) the same rural data under other '
+               'header cells - an actual-year header; a combination of start week-day, DST period, holidays, filled '
+               'soil-property cells, comments; a combination of leap flag Yes, design conditions dropped, location text, '
+               'partly filled soil cells - start dates from March on included: all 24 hours bit-identical; (2) isolated '
+               'outliers (dry bulb +-13.7 K against both neighbours at the cut hour h and in the last hour of the day, '
+               'humidity, wind, direct normal, pressure before h) and missing markers in unmodelled cells of row h, in '
+               'BOTH files, rows after h changed: hours <= h bit-identical; and the same file simulated one more day: all '
+               '24 hours bit-identical; (3) pavement below the deepest of three ground depths (droad 4.5; depths '
+               '0.1/0.2/0.3): refused by both runs, or - if accepted - hours <= h / the first day bit-identical; (4) an '
+               '8784-row file with rows after the cut and outside the window changed',
+               mismatches=bad[0], branches=branches)
 
 
 def run(chk):
@@ -354,6 +553,7 @@ def run(chk):
                'hours up to the cut must be bit-identical (nSoil<3: equal to 1e-9, window mean preserved by '
                'swapping); timesteps cycle through 300, 600, 48, 100, 450, 225, 150, 360',
                mismatches=bad, branches=branches)
+    variant_pairs(chk, work, base)
     chk.assumptions.append('the physics of one step is an uninterpreted function of (state, current forcing row, '
                            'clock, deep temperature) in the theorems; that the real step reads nothing else is '
                            'checked by the footprint scan and by these paired runs, not proved')
